@@ -1031,3 +1031,106 @@ impl NameSrc {
         }
     }
 }
+
+// ------------------------------------------------------------------------------------------
+// C03: the enumerated 4-locale domain as one project per inherits map
+
+pub const C03_LOCALES: [&str; 4] = ["en", "fr", "de", "es"];
+
+/// One project for the inherits map `map` (entry i: locale i+1 inherits 0 = nothing, 1..=4 = that
+/// locale incl. itself): for each of the 27 presence patterns {defined, null, absent}^3 and each of
+/// 6 value kinds there is one key (or group) named after the pattern.
+pub fn c03_project_for_map(map: [usize; 3]) -> Project {
+    fn text(s: &str) -> Vec<Piece> {
+        vec![Piece::Text(s.to_string())]
+    }
+    fn var(name: &str) -> Piece {
+        Piece::Var {
+            name: name.to_string(),
+            ws: [" ".into(), " ".into()],
+            fmt: None,
+        }
+    }
+    fn value_of(kind: usize, tag: &str) -> Value {
+        match kind {
+            0 => Value::Str(text(&format!("plain@{tag}"))),
+            1 => Value::Str(vec![Piece::Text(format!("hi@{tag} ")), var("name"), Piece::Text("!".into())]),
+            2 => Value::Range(RangeDecl {
+                ty: RangeTy::I32,
+                ty_written: false,
+                branches: vec![
+                    Branch {
+                        specs: vec![CountSpec::Exact { v: Num::Int(0), as_number: false }],
+                        body: text(&format!("none@{tag}")),
+                        syntax: 0,
+                        fallback_spelling: 0,
+                        ws: 0,
+                    },
+                    Branch {
+                        specs: vec![],
+                        body: vec![Piece::Text(format!("many@{tag} ")), var("count")],
+                        syntax: 0,
+                        fallback_spelling: 1,
+                        ws: 0,
+                    },
+                ],
+            }),
+            _ => Value::Plural(PluralDecl {
+                ordinal: false,
+                forms: vec![(Form::One, text(&format!("one@{tag}"))), (Form::Other, vec![var("count"), Piece::Text(format!(" others@{tag}"))])],
+            }),
+        }
+    }
+    let locales: Vec<String> = C03_LOCALES.iter().map(|s| s.to_string()).collect();
+    let mut inherits = BTreeMap::new();
+    for (i, m) in map.iter().enumerate() {
+        if *m > 0 {
+            inherits.insert(C03_LOCALES[i + 1].to_string(), C03_LOCALES[*m - 1].to_string());
+        }
+    }
+    let mut files = BTreeMap::new();
+    for (li, loc) in C03_LOCALES.iter().enumerate() {
+        let mut obj: Obj = vec![("ctl".to_string(), Value::Str(text(&format!("ctl@{loc}"))))];
+        for pr in 0..27usize {
+            let presence = [pr % 3, (pr / 3) % 3, pr / 9];
+            let pres = if li == 0 { 0 } else { presence[li - 1] };
+            for kind in 0..4usize {
+                let key = format!("p{pr}_k{kind}");
+                let tag = format!("{loc}:{key}");
+                match pres {
+                    0 => obj.push((key, value_of(kind, &tag))),
+                    1 => obj.push((key, Value::Null)),
+                    _ => {}
+                }
+            }
+            // a leaf inside a group every locale has
+            let mut g: Obj = vec![("stay".into(), Value::Str(text(&format!("stay@{loc}:gl{pr}"))))];
+            match pres {
+                0 => g.push(("leaf".into(), value_of(1, &format!("{loc}:gl{pr}.leaf")))),
+                1 => g.push(("leaf".into(), Value::Null)),
+                _ => {}
+            }
+            obj.push((format!("gl{pr}"), Value::Sub(g)));
+            // a whole group defined / null / absent
+            match pres {
+                0 => obj.push((
+                    format!("gg{pr}"),
+                    Value::Sub(vec![
+                        ("leaf".into(), value_of(1, &format!("{loc}:gg{pr}.leaf"))),
+                        ("deep".into(), Value::Sub(vec![("x".into(), value_of(0, &format!("{loc}:gg{pr}.deep.x")))])),
+                    ]),
+                )),
+                1 => obj.push((format!("gg{pr}"), Value::Null)),
+                _ => {}
+            }
+        }
+        files.insert((None, loc.to_string()), obj);
+    }
+    Project {
+        locales,
+        inherits,
+        namespaces: None,
+        locales_dir: "locales".into(),
+        files,
+    }
+}
